@@ -1181,9 +1181,27 @@ func (c *SpecCtx) evalCall(e *ECall) Val {
 		return Val{T: fmt.Sprintf("(= %s %s)", a.T, b.T), Typ: boolT}
 	case "addr":
 		// addr(x): the address of a local variable that lives in memory (a captured or address-taken local)
+		if sel, isSel := e.Args[0].(*ESelector); isSel {
+			// addr(p.f): the address of field f of the struct p points to
+			x := c.eval(sel.X)
+			pt, isPtr := x.Typ.Underlying().(*types.Pointer)
+			if !isPtr {
+				c.fail("addr(x.f): x must be a pointer to a struct")
+			}
+			st, isSt := pt.Elem().Underlying().(*types.Struct)
+			if !isSt {
+				c.fail("addr(x.f): x must be a pointer to a struct")
+			}
+			for fi := 0; fi < st.NumFields(); fi++ {
+				if st.Field(fi).Name() == sel.Sel {
+					return Val{T: enc.fieldPtr(x.T, fi), Typ: types.NewPointer(st.Field(fi).Type())}
+				}
+			}
+			c.fail("addr(x.%s): no such field", sel.Sel)
+		}
 		id, isId := e.Args[0].(*EIdent)
 		if !isId {
-			c.fail("addr(x): x must be a variable name")
+			c.fail("addr(x): x must be a variable name or a field selection")
 		}
 		v, ok := c.lookup(id.Name)
 		if !ok {
